@@ -323,19 +323,6 @@ func maxInt(a, b int) int {
 }
 
 func (f *srvFam) Gen(r *hx.Run) {
-	if os.Getenv("HPOOL_PROBE") != "" {
-		C, L := tc.MAX_CAPACITY, tc.MAX_LIMITATION
-		for i := 0; i < 3; i++ {
-			r.Case(fmt.Sprintf("probe-%d", i))
-			r.Do(fmt.Sprintf("start %d %d 1", C, L))
-			r.Do(fmt.Sprintf("fill %d", C-1))
-			r.Do(fmt.Sprintf("race-saveblock %d", L))
-			r.Do("state")
-		}
-		f.stop()
-		return
-	}
-	r.Rule("the real TXPoolServer at the real constants: (1) sequential admission to capacity and beyond (must stop at MAX_CAPACITY); (2) pool one below capacity, MAX_LIMITATION (+1) transactions admitted while the validators hold their answers, then released; (3) with pre-execution enabled, a saved block sends the pool to re-verification and new transactions are admitted into the empty pool meanwhile, twice; (4) a proposed block with fresh transactions verified while the pool is full. distinct non-trivial = scenarios in which at least MAX_LIMITATION transactions were in flight at once")
 	C, L := tc.MAX_CAPACITY, tc.MAX_LIMITATION
 	// scenario 1+2: check-then-act
 	r.Case("admission-race")
@@ -385,6 +372,13 @@ func (f *srvFam) Gen(r *hx.Run) {
 		r.Do("release")
 	}
 	r.Nontrivial("reverify-window")
+	// scenario 5: the same saved block racing with new submissions (validators answering): between Remain() and the
+	// re-queueing the capacity test sees an (almost) empty pool. Schedule dependent; only the oracle is evaluated.
+	r.Case("reverify-race")
+	r.Do(fmt.Sprintf("start %d %d 1", C, L))
+	r.Do(fmt.Sprintf("fill %d", C-1))
+	r.Do(fmt.Sprintf("race-saveblock %d", L))
+	r.Nontrivial("reverify-race")
 	f.stop()
 	if f.dir != "" {
 		os.RemoveAll(f.dir)
